@@ -3,7 +3,7 @@ from engines.arena_prop import run_arena_property
 
 def run(ctx):
     return run_arena_property(ctx, ["BumpProof.Props.C02", "BumpProof.Props.Hist@C02", "BumpProof.Props.Targets@C02"],
-        runs_quick=[('realloc', 150, 100), ('general', 60, 100)],
+        runs_quick=[('realloc', 500, 100), ('general', 300, 100)],
         runs_thorough=[('realloc', 6000, 200), ('general', 3000, 200), ('prepared', 2000, 200)],
         fields=(0, 6), extra_oracles=(),
         note='frame theorems for the memory operations of the model + checksum correspondence + shadow-copy oracle on the implementation')
